@@ -141,10 +141,14 @@ def run_terminate(n):
             state = E2.deref(c.args[3])
             v = z3.Int('slash%d' % len(slashed))
             E2.ctx.assume(v >= 0)
-            slashed.append(dict(amount=v, deal=deal, state=state))
+            slashed.append(dict(amount=v, deal=deal, state=state, pending_retired=env.pop('pending_retired', False)))
             return ok(BigV(v), c.dest_ty)
         E.cuts['State::process_slashed_deal'] = cut_slash
-        E.cuts['State::remove_pending_deal'] = lambda E2, c: ok(E2.materialize('Option<()>', 'pending_removed') if False else some(UNIT), c.dest_ty)
+
+        def cut_pending(E2, c):
+            env['pending_retired'] = True          # attributed to the deal slashed next
+            return ok(some(UNIT), c.dest_ty)
+        E.cuts['State::remove_pending_deal'] = cut_pending
         params = StructV('ext::miner::OnMinerSectorsTerminateParams', {0: E.materialize('i64', 'term_epoch'), 1: models_fvm.BitSetV([E.materialize('u64', 'sector').v])})
         env['term_epoch'] = params.fields[0].v
         fn = find_fn(E, MARKET, 'on_miner_sectors_terminate')
@@ -175,6 +179,8 @@ def props_terminate(E, res):
         P.append(tagged('C07', "only the calling provider's own deals are terminated", addr_eq(fget(E, d, DPF['provider'], ADDR), rt.caller)))
         P.append(tagged('C07', 'a deal that already reached its end epoch is not slashed', fget(E, d, DPF['end_epoch'], 'i64').v > env['term_epoch']))
         P.append(tagged('C07', 'the deal is slashed as of the termination epoch given by the miner', fget(E, stt, DSF['slash_epoch'], 'i64').v == env['term_epoch']))
+        P.append(tagged('C07,C08', "a terminated deal's pending-proposal entry is retired only if the deal was never settled (a settled deal's entry is already gone and the cid may belong to a newer deal)",
+                        z3.BoolVal(bool(x['pending_retired'])) == (fget(E, stt, DSF['last_updated_epoch'], 'i64').v == -1)))
     # every live (unexpired) deal of the terminated sectors is slashed: none is skipped
     slashed_names = [getattr(E.deref(x['deal']), 'name', None) or getattr(E.deref(x['deal']), 'lazy', None) for x in slashed]
     for did in env['ids']:
